@@ -114,7 +114,8 @@ func (x *fx) reload() {
 }
 
 func (x *fx) restart() {
-	x.f.stop()
+	r0 := x.now()
+	x.f.stop() // includes the drain time: the instance is down for ~10 virtual seconds
 	f, err := newFApp(x.dir, "", x.env, x.fo)
 	if err != nil {
 		x.err = &violation{"restart-failed", err.Error()}
@@ -122,7 +123,7 @@ func (x *fx) restart() {
 	}
 	x.f = f
 	r := x.now()
-	x.gt.reloads = append(x.gt.reloads, r)
+	x.gt.reloads = append(x.gt.reloads, r0, r)
 	// the provider is in-memory: the new process knows no alert until it is posted again
 	for _, a := range x.gt.alerts {
 		a.posts = append(a.posts, gtPost{at: r, resolve: true})
@@ -322,6 +323,7 @@ func TestVerifC04App(t *testing.T) {
 			{"expire silence A2", func(x *fx) bool { return x.silence("A2", false) }},
 			{"all integrations: recoverable errors", func(x *fx) bool { x.setMode("", mRecoverable); return true }},
 			{"all integrations: ok", func(x *fx) bool { x.setMode("", mOK); return true }},
+			{"all integrations: answer ok after 8s, whatever happens to the flush", func(x *fx) bool { x.setMode("", mSlow); return true }},
 			{"restart (same data dir)", func(x *fx) bool { x.restart(); return true }},
 			{"reload", func(x *fx) bool { x.reload(); return true }},
 			evAdvance(10 * time.Second), evAdvance(30 * time.Second), evAdvance(2 * time.Minute), evAdvance(2*time.Minute + 31*time.Second),
